@@ -148,6 +148,7 @@ type scenario struct {
 	Subjects []subject `json:"subjects"`
 	Invalid  []string  `json:"invalid"`
 	Unset    bool      `json:"unsetSection"`
+	ZeroDef  bool      `json:"zeroDefaults"` // the defaults structure sets nothing; the file supplies the required fields
 	Foreign  bool      `json:"foreign"`  // an un-prefixed environment variable of the first subject's name is set too: it is nobody's source
 	FlagForm string    `json:"flagForm"` // single | first | second: the first subject's flag alone, or one of two alternative flags bound together // the whole section of the invalidated field is left unset (every field zero)
 	EnvNames []string  `json:"envNames"`
@@ -223,6 +224,9 @@ func yamlOf(m map[string]any, indent string) string {
 func loadOne(id int, sc scenario, dir string, rng *rand.Rand) (loadEvent, error) {
 	ev := loadEvent{Op: "Load", ID: id, Prefix: sc.Prefix, Subjects: []subjectResult{}, Invalid: []string{}, FlagForm: sc.FlagForm}
 	defaults := validDefaults()
+	if sc.ZeroDef {
+		defaults = &Top{}
+	}
 	session := viper.New()
 	flags := pflag.NewFlagSet("c15", pflag.ContinueOnError)
 	fileMap := map[string]any{}
@@ -315,6 +319,17 @@ func loadOne(id int, sc scenario, dir string, rng *rand.Rand) (loadEvent, error)
 				}
 			} else if err := config.BindFlagToEnv(session, sc.Prefix, envVar, flags.Lookup(name)); err != nil {
 				return ev, err
+			}
+		}
+	}
+	if sc.ZeroDef {
+		// what validation requires comes from the file (unless it is the subject itself and has its own sources)
+		for _, req := range []struct {
+			path []string
+			v    any
+		}{{[]string{"title"}, "file title"}, {[]string{"mid", "name"}, "file name"}, {[]string{"mid", "inner", "host"}, "file-host"}, {[]string{"direct_leaf", "port"}, 8082}} {
+			if !subjectPaths[strings.Join(req.path, ".")] {
+				nested(fileMap, req.path, req.v)
 			}
 		}
 	}
